@@ -21,10 +21,38 @@ structure BindInner where
   expiresAt : Nat
   deriving DecidableEq, Repr
 
-/-- `(*BindAuthKeyInner).Encode`. -/
-def BindInner.encode (i : BindInner) : Bytes :=
-  putU32 Facts.C06.bindInnerTypeID ++ putU64 i.nonce ++ putU64 i.tempAuthKeyID ++ putU64 i.permAuthKeyID ++
-    putU64 i.tempSessionID ++ putU32 i.expiresAt
+open TdModel.Facts.C06 (BW BF BPut)
+
+/-- Integer value written by one regenerated `PutX` of bind.go. -/
+def bindVal (i : BindInner) (msgID payloadLen : Nat) : BF → Nat
+  | .typeID => Facts.C06.bindInnerTypeID
+  | .nonce => i.nonce
+  | .tempAuthKeyID => i.tempAuthKeyID
+  | .permAuthKeyID => i.permAuthKeyID
+  | .tempSessionID => i.tempSessionID
+  | .expiresAt => i.expiresAt
+  | .msgID => msgID
+  | .zero => 0
+  | .payloadLen => payloadLen
+  | .random => 0
+  | .payload => 0
+
+def bindRaw (random payload : Bytes) : BF → Bytes
+  | .random => random
+  | .payload => payload
+  | _ => []
+
+/-- Interpreter of a regenerated `b.PutX(…)` sequence of bind.go (`PutID` = `PutUint32`). -/
+def bindPuts (ps : List BPut) (i : BindInner) (msgID : Nat) (random payload : Bytes) : Bytes :=
+  ps.flatMap fun p =>
+    match p.w with
+    | .id => putU32 (bindVal i msgID payload.length p.f)
+    | .u32 => putU32 (bindVal i msgID payload.length p.f)
+    | .u64 => putU64 (bindVal i msgID payload.length p.f)
+    | .raw => bindRaw random payload p.f
+
+/-- `(*BindAuthKeyInner).Encode` — field sequence regenerated (`Facts.C06.bindInnerEncode`). -/
+def BindInner.encode (i : BindInner) : Bytes := bindPuts Facts.C06.bindInnerEncode i 0 [] []
 
 inductive BindErr where
   | zeroKey
@@ -38,15 +66,17 @@ def encryptBind (P : Prims) (rnd permKey keyId : Bytes) (msgID : Nat) (inner : B
   if permKey.all (· == 0) && keyId.all (· == 0) then .error .zeroKey
   else
     let payload := inner.encode
-    if rnd.length < 16 then .error .rand
+    if rnd.length < Facts.C06.bindRandomLen then .error .rand
     else
-      let plaintext := rnd.take 16 ++ putU64 msgID ++ putU32 0 ++ putU32 payload.length ++ payload
-      let msgKey := Impl.msgKeyV1 P plaintext
-      let rem := plaintext.length % 16
-      let padLen := if rem ≠ 0 then 16 - rem else 0
-      if (rnd.drop 16).length < padLen then .error .rand
+      -- envelope: the regenerated `plaintext.PutX(…)` sequence
+      let plaintext := bindPuts Facts.C06.bindEnvelope inner msgID (rnd.take Facts.C06.bindRandomLen) payload
+      let rem := plaintext.length % Facts.C06.bindBlockSize
+      let padLen := if rem ≠ 0 then Facts.C06.bindBlockSize - rem else 0
+      if (rnd.drop Facts.C06.bindRandomLen).length < padLen then .error .rand
       else
-        let padded := plaintext ++ (rnd.drop 16).take padLen
+        let padded := plaintext ++ (rnd.drop Facts.C06.bindRandomLen).take padLen
+        -- msg_key over the envelope *before* the alignment padding (statement order regenerated)
+        let msgKey := Impl.msgKeyV1 P (if Facts.C06.bindMsgKeyBeforePadding then plaintext else padded)
         let kiv := Impl.keysV1 P permKey msgKey
         .ok (keyId ++ msgKey ++ Ige.enc (P.aesEnc kiv.1) kiv.2 padded)
 
